@@ -33,6 +33,7 @@ type ViolationRec struct {
 	MinInput string `json:"min_input_b64,omitempty"`
 	MinMsg   string `json:"min_msg,omitempty"`
 	Quoted   string `json:"input_quoted"`
+	KnownID  string `json:"known_id,omitempty"` // set by the worker when the case is attributed to a listed finding
 }
 
 func (v *ViolationRec) input() []byte {
@@ -78,6 +79,7 @@ type BatchResult struct {
 	CPUms        int64               `json:"cpu_ms"`
 	MaxCaseCPUms int64               `json:"max_case_cpu_ms"`
 	MaxCaseInput string              `json:"max_case_input"`
+	KnownHits    map[string]int64    `json:"known_hits"` // attributed cases per listed finding (all of them, recorded or not)
 }
 
 func processCPU() time.Duration {
@@ -122,8 +124,10 @@ func cmdWorker(args []string) int {
 	debug.SetGCPercent(200)
 
 	res := &BatchResult{Gen: *genName, Profile: *profile, From: *from, Count: *count,
-		Skipped: map[string]int64{}, ViolByCode: map[string]int64{}}
+		Skipped: map[string]int64{}, ViolByCode: map[string]int64{}, KnownHits: map[string]int64{}}
 	ctx := core.NewCtx(cf.tier)
+	known := loadKnown(cf.verifDir)
+	knownRecorded := map[string]int{}
 
 	var curFile *os.File
 	if *cur != "" {
@@ -218,7 +222,7 @@ func cmdWorker(args []string) int {
 			v := ctx.Violations()[0]
 			res.NViolations++
 			res.ViolByCode[v.Code]++
-			if len(res.Violations) < 40 {
+			if len(res.Violations) < 400 {
 				rec := mkRec(cf.property, *profile, c, v.Code, v.Msg)
 				if !*noMin && len(c.Input) > 0 && len(c.Input) <= 8192 && !noMinimise(m) && v.Code != "panic" {
 					min, msg := minimise(m, cf.tier, c, v.Code)
@@ -228,8 +232,21 @@ func cmdWorker(args []string) int {
 						rec.Quoted = core.Quote(min)
 					}
 				}
+				// attribution to a listed finding: same failure code and the minimised
+				// input has the finding's syntactic shape
+				if kf := matchKnown(known, cf.property, v.Code, rec.minInput()); kf != nil {
+					rec.KnownID = kf.ID
+					res.KnownHits[kf.ID]++
+					knownRecorded[kf.ID]++
+					if knownRecorded[kf.ID] > 5 && c.Gen != "directed" {
+						res.NViolations-- // attributed and counted in KnownHits; not kept as a record
+						res.ViolByCode[v.Code]--
+						goto recorded
+					}
+				}
 				res.Violations = append(res.Violations, rec)
 			}
+		recorded:
 		}
 		// samples: first two of the batch, any non-trivial one, the largest
 		if len(res.Samples) < 2 || (len(res.Samples) < 4 && ctx.IsNonTrivial()) {
@@ -386,3 +403,18 @@ func allDirected(verifDir string, m core.Monitor) []core.Directed {
 }
 
 var _ = mon.Triggers
+
+// matchKnown returns the listed (status "known") finding that a violation of
+// the given code on the given minimised input is attributed to, or nil.
+func matchKnown(known []KnownFinding, property, code string, minInput []byte) *KnownFinding {
+	for i := range known {
+		kf := &known[i]
+		if kf.Status != "known" || !kf.hasProperty(property) || kf.Code != code {
+			continue
+		}
+		if trig := mon.Triggers[kf.Trigger]; trig != nil && trig(minInput) {
+			return kf
+		}
+	}
+	return nil
+}
